@@ -16,6 +16,28 @@ REG13 = {
 }
 
 REG = {
+ 'C02': dict(
+    text='Lean 4 theorems, for every ordered commutative semiring (hence exact log-domain arithmetic via exp), every matrix, '
+         'beam width, symbol selector and EVERY admissible beam cut (any top-k set: covers np.argpartition): distinct transcripts; '
+         'Pb <= massB, Pnb <= massNB, score <= true CTC path sum (never over-counts); exact and complete when nothing is pruned; '
+         'joining = grouping of textbook prefix-beam contributions and each frame keeps a top-k of the positive candidates; the '
+         'beam never dies; unnormalised input rejected. Model tied to the real decoder by correspondence in exact rationals '
+         '(sets equal, scores within 1e-7, near-ties skipped) + brute-force path-sum oracle + textbook reference.',
+    note='Trusted: Lean kernel + 3 standard axioms; floating-point logaddexp/exp/log vs exact arithmetic (1e-7); np.argpartition '
+         'returns some top-k set; translator reads the -10 threshold and 1e-5 tolerance.',
+    technique='Lean 4 proof (CTC path-sum recursion + beam invariants over ordered semirings) + differential correspondence',
+    ref='§5-C02'),
+ 'C03': dict(
+    text='Lean 4 theorems: the LM score and LM state of every beam entry are functions of its prefix alone (the LM\'s own score '
+         'along the transcript incl. insertion bonus, times the end-of-line score when requested), for every history-dependent '
+         'LM and every selecting cut; first-arg-max laws; the best hypothesis is independent of hypothesis order when unique; '
+         'posteriors are probabilities summing to 1 and the arg-max of the posteriors is the arg-max of the totals (confidence = '
+         'posterior of the best hypothesis); LM scale 0 reproduces LM-free decoding exactly. Correspondence with the real decoder '
+         'driven by history-hash toy LMs; oracle recomputes LM scores along transcripts.',
+    note='Trusted: as C02; rank decisions with margin < 1e-6 skipped; real torch LM (LMWrapper) not modelled: any object with the '
+         'advance/log_probs/eos interface is covered by the theorems.',
+    technique='Lean 4 proof (invariant: plm/h depend on the prefix only; arg-max/posterior laws) + differential correspondence',
+    ref='§5-C03'),
  'C04': dict(
     text='Lean 4 theorems: the engine\'s batched index pipeline (prepend blank frame, +1, repeat mask, zeroing, -1, filter), the '
          'stand-alone groupby decoder and greedy_filtration all equal the CTC collapse of the first-arg-max path, for every '
@@ -35,6 +57,18 @@ REG = {
          'compute_update behaves as its Python body; +inf alignments count as non-existent.',
     technique='Lean 4 proof (Viterbi DP invariant + CTC topology bijection) + differential correspondence',
     ref='§5-C05'),
+ 'C14': dict(
+    text='Lean 4 theorems over a model of confusion_networks.py (pivot, Levenshtein path walk with two pointers, bump/insert, '
+         'normalise, path enumeration): adding a hypothesis never fails, keeps every readable string (non-empty network), makes '
+         'the new hypothesis readable in order, adds exactly the score to every position; along every history whose first '
+         'hypothesis is non-empty all hypotheses stay readable; normalised positions sum to 1; paths are all arc combinations '
+         'each once, non-increasing, summing to 1; single hypothesis reads back. The pointer-advance flag is REGENERATED from the '
+         'source each run. Known finding (recorded): a leading empty hypothesis leaves no trace.',
+    note='Trusted: Lean kernel + 3 standard axioms; the small ast translator for the append branch; float sums of dyadic '
+         'scores exact, normalisation within 1e-9; the odometer enumeration is modelled as the lexicographic product (checked by '
+         'exact correspondence of the enumeration order).',
+    technique='Lean 4 proof (walk relation invariants; sum-of-products) over a model with a generated flag + differential correspondence',
+    ref='§5-C14'),
  'C15': dict(
     text='Lean 4 theorems over a model of merge_transcriptions_and_logits whose two slice expressions are REGENERATED from the '
          'Python source on every run (translator/merge.py -> Generated/Merge.lean): length law, one logits row per character, '
